@@ -16,11 +16,11 @@ const X: TableDefinition<u64, &[u8]> = TableDefinition::new("x");
 const Y: TableDefinition<u64, &[u8]> = TableDefinition::new("y");
 const MM: MultimapTableDefinition<u64, u64> = MultimapTableDefinition::new("mm");
 
-pub const SCENARIOS: [&str; 12] = ["S1", "S2", "S3", "S3g", "S8g", "S4", "S7", "S5", "S5p", "S6", "S9", "S10"];
+pub const SCENARIOS: [&str; 13] = ["S1", "S2", "S2g", "S3", "S3g", "S8g", "S4", "S7", "S5", "S5p", "S6", "S9", "S10"];
 
 pub fn threads_of(scn: &str) -> usize {
     match scn {
-        "S2" | "S3" | "S3g" | "S8g" | "S6" | "S9" | "S10" => 2,
+        "S2" | "S2g" | "S3" | "S3g" | "S8g" | "S6" | "S9" | "S10" => 2,
         _ => 3,
     }
 }
@@ -241,7 +241,10 @@ fn s1(cache_idx: usize, prefix: &[usize]) -> (ExecResult, Verdict) {
 // ------------------------------------------------------------------------------------------ S2
 
 /// two writers: begin_write -> read counters in X and Y -> write counter+1 in both -> commit/abort
-fn s2(cache_idx: usize, prefix: &[usize]) -> (ExecResult, Verdict) {
+/// `gated`: the second writer calls begin_write() only once the first one is live (a gate: a
+/// forced, free switch), so it is parked on the write slot while the first writer ends one
+/// transaction and begins the next; one preemption then lets it wake while the slot is taken again
+fn s2(cache_idx: usize, prefix: &[usize], gated: bool) -> (ExecResult, Verdict) {
     let (db, backend) = open_seed(cache_idx);
     let db = Arc::new(db);
     let log = Arc::new(Log::default());
@@ -250,10 +253,16 @@ fn s2(cache_idx: usize, prefix: &[usize]) -> (ExecResult, Verdict) {
         let (db, log) = (db.clone(), log.clone());
         bodies.push(Box::new(move || {
             let rounds = if t == 0 { 2 } else { 1 };
+            if gated && t == 1 {
+                schedx::sched().gate_wait(1);
+            }
             for round in 0..rounds {
                 let a = schedx::sched().now();
                 let mut wt = db.begin_write().unwrap();
                 let b = schedx::sched().now();
+                if gated && t == 0 && round == 0 {
+                    schedx::sched().gate_open(1);
+                }
                 if t == 1 {
                     wt.set_durability(Durability::None).unwrap();
                 }
@@ -920,7 +929,8 @@ fn run_once_inner(scn: &str, cache_idx: usize, prefix: &[usize]) -> (ExecResult,
         "S9" => s9(cache_idx, prefix),
         "S10" => s10(cache_idx, prefix),
         "S1" => s1(cache_idx, prefix),
-        "S2" => s2(cache_idx, prefix),
+        "S2" => s2(cache_idx, prefix, false),
+        "S2g" => s2(cache_idx, prefix, true),
         "S3" => s3(cache_idx, prefix, false, false),
         "S3g" => s3(cache_idx, prefix, true, false),
         "S8g" => s3(cache_idx, prefix, true, true),
